@@ -51,6 +51,9 @@ class ExtendedCommunitiesBase(Attribute, ABC):
 
     _packed: Buffer
 
+    # RFC 7606 sections 7.14 and 7.15: malformed (IPv6) extended communities are treat-as-withdraw
+    TREAT_AS_WITHDRAW = True
+
     @property
     @abstractmethod
     def communities(self) -> list[Any]:
